@@ -202,6 +202,10 @@ Proof.
         unfold upd. destruct (j =? i) eqn:E1; [apply N.eqb_eq in E1; subst|]; reflexivity.
       * split; intros j; cbn [with_port w_ports w_csrc]; [|reflexivity].
         unfold upd. destruct (j =? i) eqn:E1; [apply N.eqb_eq in E1; subst|]; reflexivity.
+      * split; intros j; cbn [with_port w_ports w_csrc]; [|reflexivity].
+        unfold upd. destruct (j =? i) eqn:E1; [apply N.eqb_eq in E1; subst|]; reflexivity.
+      * split; intros j; cbn [with_port w_ports w_csrc]; [|reflexivity].
+        unfold upd. destruct (j =? i) eqn:E1; [apply N.eqb_eq in E1; subst|]; reflexivity.
 Qed.
 
 (* a client's frame for this universe after a history: the last one it sent here, else never set *)
@@ -223,4 +227,39 @@ Proof.
   { induction ops as [|o ops IH]; intros w s H; cbn [fold_left]; [exact H|].
     apply IH. destruct (step_sources w o) as [_ Hc]. rewrite Hc, H. reflexivity. }
   apply G. reflexivity.
+Qed.
+
+(* ---- priority administration through PortManager ---- *)
+Lemma priority_admin_lemma w i v :
+  let ws := fst (step w (MgrStatic i v)) in
+  let wi := fst (step w (MgrInherit i)) in
+  port_priority (w_ports ws i) = N.min v 200 /\
+  port_priority (w_ports wi i) =
+    (if p_caps (w_ports w i) then p_inherited (w_ports w i) else p_static (w_ports w i)) /\
+  (forall j, j <> i -> w_ports ws j = w_ports w j /\ w_ports wi j = w_ports w j) /\
+  (forall d ts now, mem i (u_inputs (w_u w)) = true ->
+     s_prio (p_src (w_ports (fst (step ws (PortData i d ts now))) i)) = N.min v 200).
+Proof.
+  cbv zeta.
+  assert (E1 : port_priority (w_ports (fst (step w (MgrStatic i v))) i) = N.min v 200).
+  { unfold step. cbn [apply_update admin_step fst with_port w_ports]. unfold upd. rewrite N.eqb_refl.
+    unfold port_priority. cbn [p_caps p_inherit p_static p_inherited].
+    change SOURCE_PRIORITY_MAX with 200.
+    assert ((if p_static (w_ports w i) =? (if 200 <? v then 200 else v)
+             then p_static (w_ports w i) else (if 200 <? v then 200 else v)) = N.min v 200) as ->.
+    { destruct (p_static (w_ports w i) =? (if 200 <? v then 200 else v)) eqn:E;
+        [apply N.eqb_eq in E; rewrite E|]; destruct (200 <? v) eqn:C;
+        rewrite ?N.ltb_lt, ?N.ltb_ge in C; lia. }
+    destruct (p_caps (w_ports w i)), (p_inherit (w_ports w i)); reflexivity. }
+  split; [exact E1|]. split; [|split].
+  - unfold step. cbn [apply_update admin_step fst with_port w_ports]. unfold upd. rewrite N.eqb_refl.
+    unfold port_priority. cbn [p_caps p_inherit p_static p_inherited].
+    destruct (p_caps (w_ports w i)), (p_inherit (w_ports w i)); reflexivity.
+  - intros j Hj. unfold step. cbn [apply_update admin_step fst with_port w_ports]. unfold upd.
+    apply N.eqb_neq in Hj. rewrite Hj. split; reflexivity.
+  - intros d ts now Hm.
+    destruct (step_sources (fst (step w (MgrStatic i v))) (PortData i d ts now)) as [Hp _].
+    rewrite Hp. rewrite N.eqb_refl.
+    assert (u_inputs (w_u (fst (step w (MgrStatic i v)))) = u_inputs (w_u w)) as -> by reflexivity.
+    rewrite Hm. cbn [andb s_prio]. exact E1.
 Qed.
